@@ -30,10 +30,12 @@ def write(root, ds, *, lidar_channel="LIDAR_TOP", vis_convention="names", time_u
         T["visibility"] = [{"token": "vis-%s" % v, "level": v, "description": ""} for v in VIS_NAMES]
     else:
         T["visibility"] = [{"token": "vis-%s" % v, "level": VIS_ALIAS[v], "description": ""} for v in VIS_NAMES]
-    T["sensor"] = [{"token": "sensor-lidar", "channel": lidar_channel, "modality": "lidar"}, {"token": "sensor-cam", "channel": "CAM_FRONT", "modality": "camera"}]
+    T["sensor"] = [{"token": "sensor-lidar", "channel": lidar_channel, "modality": "lidar"}, {"token": "sensor-cam", "channel": "CAM_FRONT", "modality": "camera"},
+                   {"token": "sensor-radar", "channel": "RADAR_BACK", "modality": "radar"}]
     T["calibrated_sensor"] = [
         {"token": "cs-lidar", "sensor_token": "sensor-lidar", "translation": [0.0, 0.0, 0.0], "rotation": [1.0, 0.0, 0.0, 0.0], "camera_intrinsic": []},
         {"token": "cs-cam", "sensor_token": "sensor-cam", "translation": [1.5, 0.0, 1.2], "rotation": quat(0.1), "camera_intrinsic": [[1000.0, 0.0, 640.0], [0.0, 1000.0, 360.0], [0.0, 0.0, 1.0]]},
+        {"token": "cs-radar", "sensor_token": "sensor-radar", "translation": [-1.0, 0.0, 0.5], "rotation": quat(math.pi), "camera_intrinsic": []},
     ]
     T["log"] = [{"token": "log-0", "logfile": "verif", "vehicle": "v", "date_captured": "2020-01-01", "location": "lattice"}]
     T["map"] = [{"token": "map-0", "log_tokens": ["log-0"], "category": "semantic_prior", "filename": ""}]
@@ -94,8 +96,10 @@ def write2d(root, ds, *, time_unit_us=500_000):
     T["attribute"] = [{"token": "attr-0", "name": ATTR_NAME, "description": ""}, {"token": "attr-1", "name": "other.attribute", "description": ""}]
     T["visibility"] = [{"token": "vis-%s" % v, "level": v, "description": ""} for v in VIS_NAMES]
     cams = list(ds["cameras"])
-    T["sensor"] = [{"token": "sensor-lidar", "channel": "LIDAR_TOP", "modality": "lidar"}] + [{"token": "sensor-" + c, "channel": c.upper(), "modality": "camera"} for c in cams]
-    T["calibrated_sensor"] = [{"token": "cs-lidar", "sensor_token": "sensor-lidar", "translation": [0.0, 0.0, 0.0], "rotation": [1.0, 0.0, 0.0, 0.0], "camera_intrinsic": []}] + [
+    T["sensor"] = [{"token": "sensor-lidar", "channel": "LIDAR_TOP", "modality": "lidar"}, {"token": "sensor-radar", "channel": "RADAR_BACK", "modality": "radar"}] + [
+        {"token": "sensor-" + c, "channel": c.upper(), "modality": "camera"} for c in cams]
+    T["calibrated_sensor"] = [{"token": "cs-lidar", "sensor_token": "sensor-lidar", "translation": [0.0, 0.0, 0.0], "rotation": [1.0, 0.0, 0.0, 0.0], "camera_intrinsic": []},
+                              {"token": "cs-radar", "sensor_token": "sensor-radar", "translation": [-1.0, 0.0, 0.5], "rotation": quat(math.pi), "camera_intrinsic": []}] + [
         {"token": "cs-" + c, "sensor_token": "sensor-" + c, "translation": [1.5, 0.1 * i, 1.2], "rotation": quat(0.3 * i),
          "camera_intrinsic": [[1000.0, 0.0, 640.0], [0.0, 1000.0, 360.0], [0.0, 0.0, 1.0]]} for i, c in enumerate(cams)]
     T["log"] = [{"token": "log-0", "logfile": "verif", "vehicle": "v", "date_captured": "2020-01-01", "location": "lattice"}]
